@@ -16628,9 +16628,13 @@ func (msg *BGPUpdate) DecodeFromBytes(data []byte, options ...*MarshallingOption
 		err = p.DecodeFromBytes(data, options...)
 		if err != nil {
 			e = err.(*MessageError)
-			if e.(*MessageError).SubTypeCode == BGP_ERROR_SUB_ATTRIBUTE_FLAGS_ERROR {
+			if t := p.GetType(); e.(*MessageError).SubTypeCode == BGP_ERROR_SUB_ATTRIBUTE_FLAGS_ERROR &&
+				t != BGP_ATTR_TYPE_MP_REACH_NLRI && t != BGP_ATTR_TYPE_MP_UNREACH_NLRI {
 				e.(*MessageError).ErrorHandling = ERROR_HANDLING_TREAT_AS_WITHDRAW
 			} else {
+				// RFC 7606 Section 5.3: an MP_REACH_NLRI / MP_UNREACH_NLRI with
+				// wrong flags is incorrect as a whole; its NLRI were not
+				// parsed, so treat-as-withdraw cannot be used (Section 3.j).
 				e.(*MessageError).ErrorHandling = getErrorHandlingFromPathAttribute(p.GetType())
 				e.(*MessageError).ErrorAttribute = &p
 			}
